@@ -3,6 +3,7 @@ package sym
 import (
 	"fmt"
 	"sort"
+	"strconv"
 	"strings"
 	"time"
 )
@@ -143,6 +144,9 @@ func (e *Engine) modelInputs(st *State, extra ...*Term) (Inputs, Result) {
 			in[le.Name] = val(le.T[0]) != 0
 		case "u8", "u64":
 			in[le.Name] = val(le.T[0])
+		case "offset":
+			base, _ := strconv.ParseInt(le.Strs[0], 10, 64)
+			in[le.Name] = base + int64(val(le.T[0]))
 		case "i64", "int":
 			in[le.Name] = signExt(val(le.T[0]), le.T[0].W)
 		case "bytes", "string":
